@@ -30,6 +30,7 @@ pub fn yield_point() {
 /// Wall-clock cap per loom model (seconds); a model that hits it is reported as not exhaustive.
 pub static MODEL_CAP_S: AtomicU64 = AtomicU64::new(3600);
 pub static CAPPED_MODELS: AtomicU64 = AtomicU64::new(0);
+pub static NONDET_MODELS: AtomicU64 = AtomicU64::new(0);
 
 /// Overall wall-clock budget of the current phase: models that would start after it are skipped
 /// (and counted), never silently.
@@ -65,14 +66,30 @@ pub fn explore(preemption_bound: Option<usize>, max_branches: usize, body: impl 
 
 fn explore_inner(b: loom::model::Builder, body: impl Fn() + Sync + Send + 'static) -> u64 {
     let before = SCHEDULES.load(Ordering::SeqCst);
-    b.check(move || {
+    let r = std::panic::catch_unwind(std::panic::AssertUnwindSafe(move || b.check(move || {
         SCHEDULES.fetch_add(1, Ordering::SeqCst);
+        // process-global state of the crate (statics behind the sync shims) starts every execution afresh
+        vshim::reset_statics();
+        vshim::reset_thread_locals();
         let a = loom::sync::Arc::new(loom::sync::atomic::AtomicUsize::new(0));
         POINT.store(loom::sync::Arc::as_ptr(&a) as *mut _, Ordering::SeqCst);
         body();
         POINT.store(std::ptr::null_mut(), Ordering::SeqCst);
         drop(a);
-    });
+    })));
+    POINT.store(std::ptr::null_mut(), Ordering::SeqCst);
+    if let Err(e) = r {
+        let msg = e.downcast_ref::<String>().cloned().or_else(|| e.downcast_ref::<&str>().map(|s| s.to_string())).unwrap_or_default();
+        if msg.contains("fully deterministic") {
+            // state the explorer cannot reset (not behind a sync shim) outlived an execution: this model's
+            // exploration is incomplete; it is reported as a cap, never as a verdict
+            NONDET_MODELS.fetch_add(1, Ordering::SeqCst);
+        } else if msg.contains("exceeded") {
+            CAPPED_MODELS.fetch_add(1, Ordering::SeqCst);
+        } else {
+            std::panic::resume_unwind(e);
+        }
+    }
     SCHEDULES.load(Ordering::SeqCst) - before
 }
 
@@ -153,7 +170,7 @@ fn run(args: &Args, rep: &mut Report) {
             rust_side::c18(args, rep);
             set_phase_budget(if args.thorough() { 600 } else { 120 });
             cside::c18(args, rep);
-            rep.rule = "two and three controlled threads, each running a complete operation sequence (incremental hashing, extended output with seeks, one-shot calls; C: init/update/finalize_seek) on its own instances, interleaved at every kernel entry - and, on the C side, at every load and store of the feature cache, starting from UNDEFINED so that detection itself races - all interleavings under a preemption bound; every thread's results must equal its results when run alone; on the Rust side every Platform::detect() call is additionally an environment choice that may answer any level up to the best one (all answer sequences with <= 2 deviations); plus N=16 real threads as the first calls of fresh processes (sampling, labelled so); states = distinct schedules / answer sequences; non-trivial = executions with >= 1 context switch or deviation".into();
+            rep.rule = "two and three controlled threads, each running a complete operation sequence (incremental hashing, extended output with seeks, one-shot calls; C: init/update/finalize_seek) on its own instances, interleaved at every kernel entry - and, on the C side, at every load and store of the feature cache, starting from UNDEFINED so that detection itself races - all interleavings under a preemption bound; the Rust side runs on a copy of the crate's source in which every core::sync / std::sync atomic, lock and once-cell operation is a scheduling point as well; every thread's results must equal its results when run alone; on the Rust side every Platform::detect() call is additionally an environment choice that may answer any level up to the best one (all answer sequences with <= 2 deviations); plus N=16 real threads as the first calls of fresh processes (sampling, labelled so); states = distinct schedules / answer sequences; non-trivial = executions with >= 1 context switch or deviation".into();
             rep.assumptions.push("the cpufeatures crate's own atomics are not intercepted; they are over-approximated by letting detect() answer any level".into());
         }
         _ => {
@@ -166,12 +183,23 @@ fn run(args: &Args, rep: &mut Report) {
     if capped > 0 {
         rep.cap(&format!("{} loom model(s) stopped at the per-model wall-clock cap of {} s (their schedule spaces were explored only partially)", capped, MODEL_CAP_S.load(Ordering::SeqCst)));
     }
+    let nondet = NONDET_MODELS.load(Ordering::SeqCst);
+    if nondet > 0 {
+        rep.cap(&format!("{} loom model(s) abandoned: executions were not reproducible (process-global state that the explorer cannot reset outlives an execution)", nondet));
+    }
+    rep.add("loom_models_nondeterministic", nondet);
+    rep.add("crate_statics_reset_between_executions", vshim::STATICS_SEEN.load(Ordering::SeqCst));
+    rep.add("crate_thread_locals_virtualised", vshim::THREAD_LOCALS_SEEN.load(Ordering::SeqCst));
     let skipped = SKIPPED_MODELS.load(Ordering::SeqCst);
     if skipped > 0 {
         rep.cap(&format!("{} loom model(s) not started: the phase's wall-clock budget was used up (models are ordered smallest first)", skipped));
     }
     rep.add("loom_models_skipped", skipped);
     rep.add("loom_models_capped", capped);
+    rep.add("crate_sync_ops_as_scheduling_points", vshim::OPS.load(Ordering::SeqCst));
+    if let Ok(t) = std::fs::read_to_string("/verif/target/sched-src/instrument.json") {
+        rep.notes.push(format!("instrumented copy of the crate (core::sync / std::sync -> scheduling points): {}", t.split_whitespace().collect::<Vec<_>>().join(" ")));
+    }
     rep.add("schedules", SCHEDULES.load(Ordering::SeqCst));
     rep.add("scheduling_points_executed", YIELDS.load(Ordering::SeqCst));
     let st = rep.get("states");
